@@ -33,6 +33,8 @@ REWRITE_KINDS = {
     "int_cast": "`as` cast made explicit for Verus' overflow checking (same value; cast site listed)",
     "loop_range": "`for y in a..b {` -> same loop with an `iter:` ghost name so the invariant can mention the position",
     "visibility": "`pub`/`pub(crate)` qualifier dropped",
+    "named_return": "`-> T {` -> `-> (r: T) requires … ensures … {`: names the return value so the postcondition can mention it and splices the contract; behaviour unchanged",
+    "loop_contract": "`for x in a..b {` / `while c {` -> same loop header with a ghost iterator name and the spliced `invariant … decreases …` (+ proof block at the top of the body); behaviour unchanged",
 }
 
 
